@@ -18,7 +18,7 @@ IntfOf(j)  == [i \in DOMAIN j.intfs |-> [vrf |-> j.intfs[i].vrf, in |-> j.intfs[
 RouteOf(j) == ToSet(j.routes)
 \* crypto maps are optional in the JSON of a configuration (families without VPN omit them)
 CmapOf(j)  == IF "cmaps" \in DOMAIN j
-              THEN [k \in DOMAIN j.cmaps |-> [name |-> j.cmaps[k].name, seq |-> j.cmaps[k].seq, peers |-> ToSet(j.cmaps[k].peers),
+              THEN [k \in DOMAIN j.cmaps |-> [name |-> j.cmaps[k].name, seq |-> j.cmaps[k].seq, typ |-> j.cmaps[k].typ, peers |-> ToSet(j.cmaps[k].peers),
                                                fin |-> j.cmaps[k].fin, fout |-> j.cmaps[k].fout]]
               ELSE <<>>
 IfcmOf(j)  == [i \in DOMAIN j.intfs |-> IF "ifcm" \in DOMAIN j /\ i \in DOMAIN j.ifcm THEN j.ifcm[i] ELSE ""]
@@ -45,7 +45,7 @@ Dispatch(e) ==
     [] e.ev = "IntfUnbind" -> IntfUnbind(e.n, e.dir)
     [] e.ev = "RouteAdd"   -> RouteAdd(e.r)
     [] e.ev = "RouteDel"   -> RouteDel(e.r)
-    [] e.ev = "CmEnter"    -> CmEnter(e.k, e.name, e.seq)
+    [] e.ev = "CmEnter"    -> CmEnter(e.k, e.name, e.seq, e.typ)
     [] e.ev = "CmDelete"   -> CmDelete(e.k)
     [] e.ev = "CmPeer"     -> CmPeer(e.p, e.no)
     [] e.ev = "CmFilter"   -> CmFilter(e.n, e.dir, e.no)
@@ -112,8 +112,11 @@ EntriesNow(name) == {[peers |-> cmap[k].peers, fin |-> FilterNow(cmap[k].fin), f
                        k \in {x \in DOMAIN cmap : cmap[x].name = name}}
 EntriesTgt(name) == {[peers |-> TCmap[k].peers, fin |-> FilterTgt(TCmap[k].fin), fout |-> FilterTgt(TCmap[k].fout)] :
                        k \in {x \in DOMAIN TCmap : TCmap[x].name = name}}
+\* `crypto map ... gdoi` is not supported by Netspoc: such a map and its bindings are outside the comparison
+GdoiNames0 == {DCmap[k].name : k \in {x \in DOMAIN DCmap : DCmap[x].typ = "gdoi"}}
 CryptoEquiv(i) ==
-  IF TIfcm[i] = "" THEN ifcm[i] = ""
+  IF i \in DOMAIN DIfcm /\ DIfcm[i] \in GdoiNames0 /\ TIfcm[i] = "" THEN ifcm[i] = DIfcm[i]
+  ELSE IF TIfcm[i] = "" THEN ifcm[i] = ""
   ELSE ifcm[i] # "" /\ EntriesNow(ifcm[i]) = EntriesTgt(TIfcm[i])
 
 Equivalent ==
@@ -132,9 +135,12 @@ UnmIntfs0     == (DOMAIN DIntf) \ ManagedIntfs0
 AclsOfIntfs(S) == {Bound(DIntf, i, d) : i \in S, d \in {"in", "out"}} \ {""}
 \* crypto map entries outside Netspoc's scope: their map is not bound to a managed interface and is
 \* bound to an unmanaged one or hand-named
-ManagedCmNames0 == {DIfcm[i] : i \in ManagedIntfs0} \ {""}
+ManagedCmNames0 == ({DIfcm[i] : i \in ManagedIntfs0} \ {""}) \ {DCmap[k].name : k \in {x \in DOMAIN DCmap : DCmap[x].typ = "gdoi"}}
 UnmCm0 == {k \in DOMAIN DCmap : /\ DCmap[k].name \notin ManagedCmNames0
-                                /\ (DCmap[k].name \in {DIfcm[i] : i \in UnmIntfs0} \/ ~IsGenerated(DCmap[k].name))}
+                                /\ (DCmap[k].name \in {DIfcm[i] : i \in UnmIntfs0} \/ ~IsGenerated(DCmap[k].name) \/ DCmap[k].typ = "gdoi")}
+\* the binding of a gdoi map to a managed interface must stay as well
+GdoiBindChanged == \E i \in DOMAIN DIfcm : DIfcm[i] \in {DCmap[k].name : k \in {x \in DOMAIN DCmap : DCmap[x].typ = "gdoi"}}
+                                           /\ IfcmOf(T)[i] = "" /\ (i \notin DOMAIN ifcm \/ ifcm[i] # DIfcm[i])
 FiltersOf(S) == UNION {{DCmap[k].fin, DCmap[k].fout} : k \in S} \ {""}
 ManagedAcls0 == AclsOfIntfs(ManagedIntfs0) \cup FiltersOf({k \in DOMAIN DCmap : DCmap[k].name \in ManagedCmNames0})
 \* ACLs outside Netspoc's scope: bound to unmanaged interfaces, or hand-named and not bound to a managed one
@@ -145,6 +151,7 @@ FrameViol ==
   IF \E n \in UnmAcls0 : n \notin DOMAIN acl \/ Aces(n) # DAces(n) THEN "access-list outside Netspoc's scope changed"
   ELSE IF \E i \in UnmIntfs0 : i \notin DOMAIN intf \/ intf[i] # DIntf[i] \/ ifcm[i] # DIfcm[i] THEN "unmanaged interface changed"
   ELSE IF \E k \in UnmCm0 : k \notin DOMAIN cmap \/ cmap[k] # DCmap[k] THEN "crypto map outside Netspoc's scope changed"
+  ELSE IF GdoiBindChanged THEN "binding of a gdoi crypto map changed"
   ELSE IF \E r \in DRoute : r.vrf \notin TVrfs /\ r \notin route THEN "route of unspecified VRF removed"
   ELSE IF \E r \in route : r.vrf \notin TVrfs /\ r \notin DRoute THEN "route of unspecified VRF added"
   ELSE ""
@@ -224,7 +231,14 @@ RouteUnsafe ==
 \* C18: the ACL the script built on the empty device is the effective (merged) target
 IsMerge == "parts" \in DOMAIN T
 MergedAcl == LET c == intf["E0"].in IN IF c = "" \/ c \notin DOMAIN acl THEN <<>> ELSE Aces(c)
-MergeOK == Admissible(MergedAcl, T.parts.v4, T.parts.v6, T.parts.pre, T.parts.app)
+\* on a device that already holds an ACL the script is incremental and IOS leaves the order inside a run of
+\* same-action lines free (C02): the result is compared block-canonically with the one admissible merge
+\* (without an IPv6 part it is unique: raw, Netspoc up to its last permit, APPEND, rest of Netspoc)
+LastPermitIdx(q) == LET ps == {i \in DOMAIN q : q[i].act = "permit"} IN IF ps = {} THEN 0 ELSE CHOOSE m \in ps : \A x \in ps : x <= m
+ExpectedMerge == LET v == T.parts.v4  lp == LastPermitIdx(T.parts.v4) IN
+                 T.parts.pre \o SubSeq(v, 1, lp) \o T.parts.app \o SubSeq(v, lp + 1, Len(v))
+MergeOK == IF DOMAIN D0.acls = {} THEN Admissible(MergedAcl, T.parts.v4, T.parts.v6, T.parts.pre, T.parts.app)
+           ELSE Canon(MergedAcl) = Canon(ExpectedMerge)
 
 Post(j) ==
   /\ DOMAIN acl = DOMAIN j.acls /\ \A n \in DOMAIN acl : Aces(n) = j.acls[n]
